@@ -86,6 +86,15 @@ func genC12(r *sim.Rng, i int) *c12Case {
 		}
 		if r.Chance(1, 3) {
 			c.Complete = []string{"prompt_pattern"}
+		} else if r.Chance(1, 2) {
+			// a device that redisplays something prompt-looking BEFORE the text an event waits for
+			// (a log line followed by the prompt, then the question): the event's expected response
+			// -- not the prompt -- is what releases the next input
+			for k := range c.Events {
+				if c.Events[k].Response != "" {
+					c.Events[k].Step = fmt.Sprintf("%%LOG-%d: notice\nrouter#\nstep %d text", k, k) + c12Resp[c.Events[k].Response]
+				}
+			}
 		}
 	case 1:
 		c.Kind = "input"
